@@ -173,6 +173,53 @@ def m_aho_iter(ex, callee, args):
     return IterV('aho', (a, h, cands), 0)
 
 
+@model(r'^AhoCorasick::find_iter::<|^aho_corasick::AhoCorasick::find_iter::<')
+def m_aho_find_iter(ex, callee, args):
+    """non-overlapping iteration (MatchKind::Standard): repeatedly the match
+    with the smallest end at or after the previous match's end; among matches
+    ending there the longest needle, then the smallest pattern id (validated
+    against the crate in C07)"""
+    a = opaque_data(args[0], AhoV)
+    h = as_str(args[1])
+    cap = S.parts(h)[2]
+    cands = []
+    for p, n in enumerate(a.needles):
+        ln = S.parts(n)[1]
+        if not isinstance(ln, int):
+            raise Unsupported('aho-corasick model needs needles of concrete length')
+        if ln == 0:
+            raise Unsupported('find_iter with an empty needle is not modelled')
+        for s in range(0, cap - ln + 1):
+            cands.append((p, s, s + ln))
+    cands.sort(key=lambda c: (c[2], -(c[2] - c[1]), c[0]))
+    return IterV('aho_nonoverlap', (a, h, cands), 0, extra=0)
+
+
+def _aho_nonoverlap_next(ex, it):
+    a, h, cands = it.src
+    at = it.extra
+    rest = [c for c in cands if c[1] >= at]
+    if not rest:
+        return none()
+    occ = [S.occurs_at(h, a.needles[p], s, fold=a.insensitive) for (p, s, e) in rest]
+    conds = []
+    prev_none = True
+    for o in occ:
+        conds.append(b_and(prev_none, o))
+        prev_none = b_and(prev_none, b_not(o))
+    conds.append(prev_none)
+    k = ex.decide(conds)
+    if k == len(rest):
+        it.extra = 10 ** 9
+        return none()
+    p, s, e = rest[k]
+    it.extra = e
+    return some(Adt('AhoMatch', None, None, [mk_int(p, 'usize'), mk_int(s, 'usize'), mk_int(e, 'usize')]))
+
+
+ITER_KINDS['aho_nonoverlap'] = _aho_nonoverlap_next
+
+
 def _aho_next(ex, it):
     a, h, cands = it.src
     rest = cands[it.pos:]
